@@ -379,37 +379,57 @@ func (c *inlCtx) tryNested(st ast.Stmt) {
 	default:
 		return
 	}
+	// effects are ordered: hoisting the candidate in front of the statement keeps the order when no call or receive
+	// of the statement completes before the candidate starts (enclosing calls run after their arguments, later calls
+	// stay later), and when the candidate is evaluated unconditionally (not in the right operand of && or ||)
 	var cand *ast.CallExpr
 	others := 0
+	var effects []ast.Node
 	for _, r := range roots {
+		var stack []ast.Node
 		ast.Inspect(r, func(n ast.Node) bool {
+			if n == nil {
+				stack = stack[:len(stack)-1]
+				return true
+			}
 			switch t := n.(type) {
 			case *ast.FuncLit:
-				others++ // a literal may be invoked by a callee: be conservative
-				return false
+				return false // not evaluated by the statement itself
 			case *ast.CallExpr:
 				if tv, has := info.Types[t.Fun]; has && tv.IsType() {
-					return true // conversion
+					break // conversion
 				}
 				if id, isId := ast.Unparen(t.Fun).(*ast.Ident); isId {
 					if _, isB := info.Uses[id].(*types.Builtin); isB {
-						return true
+						break
 					}
 				}
 				if _, _, _, _, _, _, ok := c.calleeOf(t); ok && cand == nil {
 					cand = t
-					// the arguments of the candidate are evaluated by the inlined bindings: they may contain calls,
-					// but nothing else in the statement may
+					for k := len(stack) - 1; k >= 0; k-- {
+						if b, isB := stack[k].(*ast.BinaryExpr); isB && (b.Op == token.LAND || b.Op == token.LOR) && t.Pos() >= b.Y.Pos() {
+							others++ // conditionally evaluated
+						}
+					}
+					// the arguments of the candidate are evaluated by the inlined bindings
 					return false
 				}
-				others++
+				effects = append(effects, t)
 			case *ast.UnaryExpr:
 				if t.Op == token.ARROW {
-					others++
+					effects = append(effects, t)
 				}
 			}
+			stack = append(stack, n)
 			return true
 		})
+	}
+	if cand != nil {
+		for _, e := range effects {
+			if e.End() <= cand.Pos() {
+				others++
+			}
+		}
 	}
 	if cand == nil || others > 0 {
 		return
